@@ -103,10 +103,7 @@ type schedCase struct {
 	CallRefs []int   `json:"call_refs,omitempty"` // rendering only: the name each command-line call uses (refName)
 	// Inc (rendering only): the tasks live in an included Taskfile (namespace `n`) and their own names there
 	// contain ':' and all end in the same segment (`t3:k`, `t4:k`, aliases `t3a:k`, wildcard `t3:k-*`)
-	Inc bool `json:"inc,omitempty"`
-	// MixNames (rendering only): a run: when_changed task may be referred to by its key AND by an alias in one
-	// program.  Off in generated programs: the two get different keys (open finding C06-when-changed-alias-key).
-	MixNames bool   `json:"mix_names,omitempty"`
+	Inc      bool   `json:"inc,omitempty"`
 	Cap      int    `json:"cap"` // 0 = unlimited
 	Parallel bool   `json:"parallel,omitempty"`
 	Force    bool   `json:"force,omitempty"`
@@ -179,14 +176,15 @@ func (d schedCase) refName(i, ref int) string {
 			nm += ":k"
 		}
 		if t.Run == "when_changed" {
-			// the match is a variable of the task (.MATCH), so it is part of the when_changed key: keep the streams
-			// that count on a shared execution on one word; a run: once key is by name only — any word will do
+			// the match is a variable of the task (.MATCH, .ALIAS), so it is part of the when_changed key: keep to one
+			// word (the model's key owner is (task, V)); a run: once key is by task only — any word will do
 			ref = 0
 		}
 		return nm + "-" + wildWords[ref%len(wildWords)]
-	case t.Aliases > 0 && t.Run == "when_changed" && !d.MixNames:
-		// GetTask sets the call variable MATCH for a name that is a key (or a wildcard match) and leaves it unset for an
-		// alias, and call variables are part of the when_changed key: generated programs keep to ONE name per task
+	case t.Aliases > 0 && t.Run == "when_changed":
+		// the name a task is called by is a variable it can read (.ALIAS; .MATCH for a wildcard match), so it is part
+		// of the run: when_changed key like every other call variable: `task w` and `task wa` are two executions.
+		// The model's key owner is (task, V): generated programs keep to ONE name per when_changed task.
 		return d.aliasName(i, 0)
 	case ref > 0 && t.Aliases > 0:
 		return d.aliasName(i, (ref-1)%t.Aliases)
